@@ -97,8 +97,9 @@ Record result := mk_result {
   r_disk : disk;              (* disk after the run completed *)
   r_writes : list wfile;      (* the successful renames, in program order *)
   r_out : outcome;            (* which refresh counter was incremented *)
-  r_nrev : N                  (* revocations accepted in this run (taRevoked) *)
+  r_revoked : list N          (* materials whose revocation this run accepted (one taRevoked.Inc each) *)
 }.
+Definition r_nrev (r : result) : N := N.of_nat (length (r_revoked r)).
 
 Inductive auth := AuthFail | AuthFull | AuthRevOnly.
 
@@ -109,7 +110,7 @@ Fixpoint insert_sorted (x : N) (l : list N) : list N :=
   end.
 Definition sort_tags (l : list N) : list N := fold_right insert_sorted [] l.
 
-Record pst := mk_pst { p_ksk : kmap; p_tombs : tmap; p_newrev : bool; p_nrev : N }.
+Record pst := mk_pst { p_ksk : kmap; p_tombs : tmap; p_newrev : bool; p_revs : list N }.
 
 Section WithTag.
 Variable tag : key -> N.
@@ -216,14 +217,14 @@ Definition process_one (now : Z) (rev_only : bool) (fm : list (N * key)) (staged
       | Some old =>
         if is_trusted_st old && same_except_revoke (ta_key old) k && staged_ok staged t
         then mk_pst (set ot (mk_ta (ta_key old) SRevoked now) (p_ksk s))
-                    (set (k_mat k) (mk_tomb k now) (p_tombs s)) true (p_nrev s + 1)
+                    (set (k_mat k) (mk_tomb k now) (p_tombs s)) true (k_mat k :: p_revs s)
         else s
       | None => s
       end
     else if rev_only then s
     else match lookup t (p_ksk s) with
          | Some _ => s
-         | None => mk_pst (set t (mk_ta k SAddPend now) (p_ksk s)) (p_tombs s) (p_newrev s) (p_nrev s)
+         | None => mk_pst (set t (mk_ta k SAddPend now) (p_ksk s)) (p_tombs s) (p_newrev s) (p_revs s)
          end
   end.
 Definition process (now : Z) (rev_only : bool) (fm : list (N * key)) (staged : list (N * bool)) (tags : list N) (s : pst) : pst :=
@@ -279,31 +280,38 @@ Definition tail (live1 : list key) (d : disk) (fl : faults) (s : pst) : result :
                then (if p_newrev s then [] else live1)
                else trusted_keys ksk5 in
   mk_result live' (apply_writes d ws) ws
-            (if tomb_ok && state_ok then OSuccess else OPersistence) (p_nrev s).
+            (if tomb_ok && state_ok then OSuccess else OPersistence) (p_revs s).
 
 (* Resolver.AutoTA *)
 Definition autota (live cfg : list key) (d : disk) (now : Z) (fe : fetch) (fl : faults) : result :=
   match prefetch live cfg d now fl with
-  | None => mk_result [] d [] OPersistence 0
+  | None => mk_result [] d [] OPersistence []
   | Some (ksk2, tombs2) =>
     let cand := trusted_keys ksk2 in
     let live1 := if is_nil live then live else cand in
     match fe with
-    | FErr => mk_result live1 d [] OQuery 0
+    | FErr => mk_result live1 d [] OQuery []
     | FResp keys sigs =>
       match authenticate cand keys sigs with
-      | AuthFail => mk_result live1 d [] OValidation 0
+      | AuthFail => mk_result live1 d [] OValidation []
       | a =>
         let rev_only := match a with AuthRevOnly => true | _ => false end in
         let fm := fetched_map keys in
         let tags := sort_tags (map fst fm) in
         let staged := stage ksk2 tombs2 sigs fm tags in
-        let s3 := process now rev_only fm staged tags (mk_pst ksk2 tombs2 false 0) in
+        let s3 := process now rev_only fm staged tags (mk_pst ksk2 tombs2 false []) in
         let s4 := if rev_only then s3
-                  else mk_pst (keyrem now fm (p_ksk s3)) (p_tombs s3) (p_newrev s3) (p_nrev s3) in
+                  else mk_pst (keyrem now fm (p_ksk s3)) (p_tombs s3) (p_newrev s3) (p_revs s3) in
         tail live1 d fl s4
       end
     end
+  end.
+
+(* the trust set AutoTA authenticates the response against (and publishes before the fetch) *)
+Definition candidate (live cfg : list key) (d : disk) (now : Z) (fl : faults) : list key :=
+  match prefetch live cfg d now fl with
+  | Some (ksk2, _) => trusted_keys ksk2
+  | None => []
   end.
 
 (* ------------------------------------------------- the system across runs *)
